@@ -9,6 +9,7 @@ import CBV.Lemmas.C10Geo
 import Mathlib.Tactic.Ring
 import Mathlib.Tactic.Linarith
 import Mathlib.Tactic.FieldSimp
+import Mathlib.Tactic.LinearCombination
 import Mathlib.Algebra.Order.Field.Rat
 import CBV.Gen.TC10
 
@@ -618,5 +619,164 @@ theorem T_C10_wedge (name : String) :
     (do let s ← wedgeNamed "set_inner_patch"; let o ← ({} : Op).setPatch s name; some o.view.patches) = some [(name, [4, 5, 1, 0])] ∧
     (do let s ← wedgeNamed "set_outer_patch"; let o ← ({} : Op).setPatch s name; some o.view.patches) = some [(name, [7, 6, 2, 3])] := by
   refine ⟨by decide, rfl, rfl⟩
+
+/-! ### Round 6c: `Face.shift` for every count; `Revolve` / `Wedge` / scalar `Extrude` geometry -/
+
+/-- what the *source* does for a count, read off the regenerated table at the count's residue: the entry of
+    `deque(range(4)).rotate(r)` for `r = count mod 4 ∈ {0,1,2,3}` -/
+def shiftIdxSource (count : Int) : List Nat :=
+  ((CBV.Gen.c10ShiftIdx.find? (fun e => e.1 == count % 4)).map (·.2)).getD []
+
+/-- **every count**: the model's `shiftIdx` is the function computed from the regenerated table, for all integers
+    (interpreted tie); and the table — the source's own two statements executed for −9..9 and for counts of magnitude
+    10³…10¹² of every residue — agrees with the model entry by entry, so `deque.rotate` was observed to depend on
+    `count mod 4` only on all 35 of them (that it does so for the counts not executed is python's semantics) -/
+theorem T_C10_shift_every_count :
+    (∀ k : Int, shiftIdx k = shiftIdxSource k) ∧ (∀ e ∈ CBV.Gen.c10ShiftIdx, shiftIdx e.1 = e.2 ∧ shiftIdxSource e.1 = e.2) ∧
+      CBV.Gen.c10ShiftIdx.length = 35 := by
+  refine ⟨?_, by decide, by decide⟩
+  intro k
+  have hmod : shiftIdx k = shiftIdx (k % 4) := by
+    unfold shiftIdx
+    apply List.map_congr_left
+    intro i _
+    congr 1
+    omega
+  have hs : shiftIdxSource k = shiftIdxSource (k % 4) := by
+    unfold shiftIdxSource
+    rw [Int.emod_emod_of_dvd k (dvd_refl 4)]
+  rw [hmod, hs]
+  have h : k % 4 = 0 ∨ k % 4 = 1 ∨ k % 4 = 2 ∨ k % 4 = 3 := by omega
+  rcases h with h | h | h | h <;> rw [h] <;> decide
+
+/-- **`Revolve`**: the top face is the base face turned about the axis — for every base, every angle given by a point
+    `(c, s)` of the unit circle, every axis with length witness `len` and every origin: the eight corners are the base
+    followed by its image; the chord from each base corner to its image (the side edge the `Angle(angle, axis)` datum is put
+    on) is perpendicular to the axis, both ends are at the same distance from the axis (so an arc about that axis joins
+    them), and the turned face is congruent to the base (all six distances between its corners are kept) -/
+theorem T_C10_revolve (a b c' d : V3) (c s : Rat) (axis : V3) (len : Rat) (o : V3)
+    (h0 : len ≠ 0) (hl : len * len = V3.norm2 axis) (hcs : c * c + s * s = 1) :
+    revolvePoints [a, b, c', d] c s axis len o =
+      [a, b, c', d, rotateP c s axis len o a, rotateP c s axis len o b, rotateP c s axis len o c', rotateP c s axis len o d] ∧
+    (∀ p : V3, V3.dot (rotateP c s axis len o p - p) axis = 0 ∧
+      (let u := V3.smul (1 / len) axis
+       let centre := o + V3.smul (V3.dot u (p - o)) u
+       V3.norm2 (rotateP c s axis len o p - centre) = V3.norm2 (p - centre))) ∧
+    (∀ p q : V3, V3.norm2 (rotateP c s axis len o p - rotateP c s axis len o q) = V3.norm2 (p - q)) := by
+  have hu := unit_axis axis len h0 hl
+  refine ⟨rfl, ?_, ?_⟩
+  · intro p
+    constructor
+    · have h := rotU_chord_perp c s (V3.smul (1 / len) axis) o p hu
+      rw [← rotateP_eq] at h
+      simp only [V3.dot, V3.smul_x, V3.smul_y, V3.smul_z] at h ⊢
+      have : (rotateP c s axis len o p - p).x * axis.x + (rotateP c s axis len o p - p).y * axis.y +
+          (rotateP c s axis len o p - p).z * axis.z =
+          len * ((rotateP c s axis len o p - p).x * (1 / len * axis.x) + (rotateP c s axis len o p - p).y * (1 / len * axis.y) +
+            (rotateP c s axis len o p - p).z * (1 / len * axis.z)) := by
+        field_simp
+      rw [this, h, mul_zero]
+    · exact rotU_equidistant c s (V3.smul (1 / len) axis) o p hu hcs
+  · intro p q
+    exact rotU_isometry c s (V3.smul (1 / len) axis) o p q hu hcs
+
+/-- non-vacuity: a quarter turn about the axis (0, 0, 2) through (1, 0, 0) -/
+example : revolvePoints [⟨2, 0, 0⟩] 0 1 ⟨0, 0, 2⟩ 2 ⟨1, 0, 0⟩ = [⟨2, 0, 0⟩, ⟨1, 1, 0⟩] ∧ (2 : Rat) * 2 = V3.norm2 ⟨0, 0, 2⟩ := by
+  decide +kernel
+
+/-- **`Wedge`**: turning the given face back by half the angle and revolving the result by the whole angle puts the bottom
+    face at `−angle/2` and the top face at `+angle/2` of the given face — the wedge is symmetric about the plane of the face
+    the user gave (for every face and every half angle `(c2, s2)` on the unit circle) -/
+theorem T_C10_wedge_geometry (a b c' d : V3) (c2 s2 : Rat) (h : c2 * c2 + s2 * s2 = 1) :
+    wedgePoints [a, b, c', d] c2 s2 =
+      [a, b, c', d].map (rotateP c2 (-s2) ⟨1, 0, 0⟩ 1 V3.zero) ++ [a, b, c', d].map (rotateP c2 s2 ⟨1, 0, 0⟩ 1 V3.zero) := by
+  have key : ∀ p : V3, rotateP (c2 * c2 - s2 * s2) (2 * s2 * c2) ⟨1, 0, 0⟩ 1 V3.zero (rotateP c2 (-s2) ⟨1, 0, 0⟩ 1 V3.zero p) =
+      rotateP c2 s2 ⟨1, 0, 0⟩ 1 V3.zero p := by
+    intro p
+    apply V3.ext' <;>
+      simp only [rotateP, V3.zero, V3.dot, V3.add_x, V3.add_y, V3.add_z, V3.sub_x, V3.sub_y, V3.sub_z, V3.smul_x, V3.smul_y,
+        V3.smul_z, V3.cross_x, V3.cross_y, V3.cross_z]
+    · ring
+    · linear_combination (c2 * p.y - s2 * p.z) * h
+    · linear_combination (c2 * p.z + s2 * p.y) * h
+  simp only [wedgePoints, revolvePoints, List.map_cons, List.map_nil, key]
+
+example : wedgePoints [⟨0, 1, 0⟩] (4/5) (3/5) = [⟨0, 4/5, -3/5⟩, ⟨0, 4/5, 3/5⟩] := by decide +kernel
+
+/-- **`Extrude` by a scalar amount**: with `len` the length of the raw normal of the base, every top corner is the base
+    corner displaced by a vector of length `|amount|` along the normal (same sense as `Face.normal` for a positive amount) -/
+theorem T_C10_extrude_scalar (a b c' d : V3) (amount len : Rat) (h0 : 0 < len)
+    (hl : len * len = V3.norm2 (normalOf [a, b, c', d])) :
+    let v := V3.smul (amount / len) (normalOf [a, b, c', d])
+    extrudeScalar [a, b, c', d] amount len = [a, b, c', d, a + v, b + v, c' + v, d + v] ∧
+      V3.norm2 v = amount * amount ∧ V3.dot v (normalOf [a, b, c', d]) = amount * len := by
+  intro v
+  refine ⟨rfl, ?_, ?_⟩
+  · simp only [v, V3.norm2, V3.dot, V3.smul_x, V3.smul_y, V3.smul_z] at hl ⊢
+    have hne : len ≠ 0 := ne_of_gt h0
+    field_simp
+    linear_combination (-(amount * amount)) * hl
+  · simp only [v, V3.norm2, V3.dot, V3.smul_x, V3.smul_y, V3.smul_z] at hl ⊢
+    have hne : len ≠ 0 := ne_of_gt h0
+    field_simp
+    linear_combination (-amount) * hl
+
+example : extrudeScalar [⟨0, 0, 0⟩, ⟨1, 0, 0⟩, ⟨1, 1, 0⟩, ⟨0, 1, 0⟩] (1/2) 32 =
+    [⟨0, 0, 0⟩, ⟨1, 0, 0⟩, ⟨1, 1, 0⟩, ⟨0, 1, 0⟩, ⟨0, 0, 1/2⟩, ⟨1, 0, 1/2⟩, ⟨1, 1, 1/2⟩, ⟨0, 1, 1/2⟩] ∧
+    (32 : Rat) * 32 = V3.norm2 (normalOf [⟨0, 0, 0⟩, ⟨1, 0, 0⟩, ⟨1, 1, 0⟩, ⟨0, 1, 0⟩]) := by decide +kernel
+
+/-! ### a third surface on a projected edge -/
+
+theorem length_insertSorted_not_mem (l : String) : ∀ ls : List String, l ∉ ls → (insertSorted l ls).length = ls.length + 1 := by
+  intro ls
+  induction ls with
+  | nil => intro _; rfl
+  | cons x xs ih =>
+    intro hn
+    have hx : l ≠ x := fun h => hn (by simp [h])
+    have hxs : l ∉ xs := fun h => hn (by simp [h])
+    unfold insertSorted
+    split
+    · simp
+    · simp only [hx, if_false, List.length_cons, ih hxs]
+
+theorem length_insertSorted_bounds (l : String) : ∀ ls : List String,
+    1 ≤ (insertSorted l ls).length ∧ (insertSorted l ls).length ≤ ls.length + 1 := by
+  intro ls
+  induction ls with
+  | nil => simp [insertSorted]
+  | cons x xs ih =>
+    unfold insertSorted
+    split
+    · simp
+    · split
+      · simp
+      · simp only [List.length_cons]; omega
+
+/-- **`Project.add_label` / `check_length`**: an edge slot that already holds two surfaces refuses every further surface
+    that is not one of the two (`EdgeCreationError`: blockMesh projects an edge to one surface or to the intersection of two),
+    and a slot holding at most one surface accepts any label — for every operation state, slot and label; so
+    `project_edge` / `project_side(edges=True)` either leave at most two labels on every edge or are refused -/
+theorem T_C10_third_label (o : Op) (s : Slot) (l : String) :
+    ((o.slotLabels s).length = 2 → l ∉ o.slotLabels s → o.projEdgeSlot? s l = none) ∧
+    ((o.slotLabels s).length ≤ 1 → o.projEdgeSlot? s l = some (o.projEdgeSlot s l)) := by
+  constructor
+  · intro h2 hn
+    have := length_insertSorted_not_mem l (o.slotLabels s) hn
+    simp [Op.projEdgeSlot?, labelsOk, addLabel, this, h2]
+  · intro h1
+    have := length_insertSorted_bounds l (o.slotLabels s)
+    have hok : labelsOk (addLabel (o.slotLabels s) l) = true := by
+      obtain ⟨hlo, hhi⟩ := this
+      unfold labelsOk addLabel
+      rw [Bool.and_eq_true]
+      exact ⟨decide_eq_true (by omega), decide_eq_true (by omega)⟩
+    simp [Op.projEdgeSlot?, hok]
+
+/-- non-vacuity: two surfaces on edge 0-1, a third one is refused, a repeated one is accepted -/
+example :
+    let o2 := (({} : Op).projectEdge 0 1 "g1").bind (fun o => o.projectEdge 1 0 "g2")
+    (o2.map (fun o => o.slotLabels (.bottom 0))) = some ["g1", "g2"] ∧ (o2.bind (fun o => o.projectEdge 0 1 "g3")) = none ∧
+      ((o2.bind (fun o => o.projectEdge 0 1 "g2")).map (fun o => o.slotLabels (.bottom 0))) = some ["g1", "g2"] := by decide
 
 end CBV.C10
